@@ -29,9 +29,41 @@ pub enum Seg {
     Max(usize),
 }
 
+/// Handle stored in BaseStream::Verif.  The script itself lives outside the enum: CBMC loses the
+/// concreteness of cursor/length fields when a large struct with symbolic bytes sits inside an enum
+/// (union) payload, which makes every loop bound symbolic.
+pub struct Scripted(pub *mut Script);
+
+impl std::fmt::Debug for Scripted {
+    fn fmt(&self, _f: &mut std::fmt::Formatter<'_>) -> std::fmt::Result {
+        Ok(())
+    }
+}
+
+impl Scripted {
+    pub fn script(&self) -> &Script {
+        unsafe { &*self.0 }
+    }
+}
+
+impl Read for Scripted {
+    fn read(&mut self, buf: &mut [u8]) -> io::Result<usize> {
+        unsafe { (*self.0).read(buf) }
+    }
+}
+
+impl Write for Scripted {
+    fn write(&mut self, buf: &[u8]) -> io::Result<usize> {
+        unsafe { (*self.0).write(buf) }
+    }
+    fn flush(&mut self) -> io::Result<()> {
+        unsafe { (*self.0).flush() }
+    }
+}
+
 /// Scripted in-memory transport.  Contract: a read with a non-empty buffer returns >= 1 byte
 /// while bytes are available; at the end of the script it produces `fault` (forever).
-pub struct Scripted {
+pub struct Script {
     pub data: [u8; WIRE_CAP],
     pub len: usize,
     pub pos: usize,
@@ -50,15 +82,15 @@ pub struct Scripted {
     pub flushes: usize,
 }
 
-impl std::fmt::Debug for Scripted {
+impl std::fmt::Debug for Script {
     fn fmt(&self, _f: &mut std::fmt::Formatter<'_>) -> std::fmt::Result {
         Ok(())
     }
 }
 
-impl Scripted {
-    pub fn new(data: [u8; WIRE_CAP], len: usize, seg: Seg, fault: Fault) -> Scripted {
-        Scripted {
+impl Script {
+    pub fn new(data: [u8; WIRE_CAP], len: usize, seg: Seg, fault: Fault) -> Script {
+        Script {
             data,
             len,
             pos: 0,
@@ -75,14 +107,19 @@ impl Scripted {
         }
     }
 
-    pub fn from_slice(bytes: &[u8], seg: Seg, fault: Fault) -> Scripted {
+    pub fn from_slice(bytes: &[u8], seg: Seg, fault: Fault) -> Script {
         let mut data = [0u8; WIRE_CAP];
         let mut i = 0;
         while i < bytes.len() {
             data[i] = bytes[i];
             i += 1;
         }
-        Scripted::new(data, bytes.len(), seg, fault)
+        Script::new(data, bytes.len(), seg, fault)
+    }
+
+    /// handle to store inside BaseStream::Verif; `self` must outlive every use of the handle
+    pub fn handle(&mut self) -> Scripted {
+        Scripted(self as *mut Script)
     }
 
     pub fn written(&self) -> &[u8] {
@@ -99,7 +136,7 @@ pub fn fault_result(f: Fault) -> io::Result<usize> {
     }
 }
 
-impl Read for Scripted {
+impl Read for Script {
     fn read(&mut self, buf: &mut [u8]) -> io::Result<usize> {
         if buf.is_empty() {
             return Ok(0);
@@ -130,7 +167,7 @@ impl Read for Scripted {
     }
 }
 
-impl Write for Scripted {
+impl Write for Script {
     fn write(&mut self, buf: &[u8]) -> io::Result<usize> {
         let room = OUT_CAP - self.out_len;
         if buf.len() > room {
@@ -210,6 +247,7 @@ pub static mut DIAL_LOG: [DialRecord; MAX_DIALS] = [DialRecord {
 }; MAX_DIALS];
 /// Wire image each successive dial will serve (index = dial number).
 pub static mut DIAL_WIRE: [([u8; WIRE_CAP], usize); MAX_DIALS] = [([0; WIRE_CAP], 0); MAX_DIALS];
+pub static mut DIAL_SCRIPTS: [Option<Script>; MAX_DIALS] = [None, None, None, None];
 pub static mut DIAL_REFUSE: bool = false;
 
 pub fn dial(host: &url::Host<&str>, port: u16, scheme: &str) -> crate::Result<Scripted> {
@@ -240,7 +278,11 @@ pub fn dial(host: &url::Host<&str>, port: u16, scheme: &str) -> crate::Result<Sc
             return Err(crate::ErrorKind::Io(io::ErrorKind::ConnectionRefused.into()).into());
         }
         let (data, len) = DIAL_WIRE[k];
-        Ok(Scripted::new(data, len, Seg::Whole, Fault::Eof))
+        DIAL_SCRIPTS[k] = Some(Script::new(data, len, Seg::Whole, Fault::Eof));
+        match &mut DIAL_SCRIPTS[k] {
+            Some(s) => Ok(s.handle()),
+            None => unreachable!(),
+        }
     }
 }
 
@@ -326,5 +368,323 @@ pub fn hex_val(b: u8) -> Option<usize> {
         b'a'..=b'f' => Some((b - b'a') as usize + 10),
         b'A'..=b'F' => Some((b - b'A') as usize + 10),
         _ => None,
+    }
+}
+
+// ---------------------------------------------------------------------------------------------
+// Wire generator + reference payload (independent oracle for the response-body properties).
+
+pub const PAY_CAP: usize = 24;
+
+#[derive(Clone, Copy)]
+pub struct Ch {
+    /// chunk data size (>= 1)
+    pub size: usize,
+    /// leading zeros in the size field
+    pub zeros: usize,
+    /// 0: none, 1: ";x", 2: ";x=y", 3: " " (blank before CRLF)
+    pub ext: usize,
+    /// size line / data terminated by bare LF instead of CRLF
+    pub bare_lf: bool,
+}
+
+pub const fn ch(size: usize) -> Ch {
+    Ch {
+        size,
+        zeros: 0,
+        ext: 0,
+        bare_lf: false,
+    }
+}
+
+pub struct Case {
+    pub wire: [u8; WIRE_CAP],
+    /// total bytes on the wire (frame + trailing garbage)
+    pub wire_len: usize,
+    /// length of the complete frame (for chunked: through the CRLF after the zero chunk)
+    pub frame_len: usize,
+    pub payload: [u8; PAY_CAP],
+    pub pay_len: usize,
+    /// for every wire offset < frame_len: number of payload bytes that are fully contained in
+    /// wire[..offset] *and* deliverable (chunked: only complete chunks incl. their CRLF count for C19)
+    pub complete_at: [usize; WIRE_CAP + 1],
+    /// payload bytes contained in wire[..offset] (regardless of chunk completion)
+    pub present_at: [usize; WIRE_CAP + 1],
+}
+
+fn any_non_delim() -> u8 {
+    let b: u8 = kani::any();
+    kani::assume(b != b'\r' && b != b'\n' && b != b';' && b >= 0x21 && b < 0x7f);
+    b
+}
+
+fn hex_digit(v: usize, upper: bool) -> u8 {
+    if v < 10 {
+        b'0' + v as u8
+    } else if upper {
+        b'A' + (v as u8 - 10)
+    } else {
+        b'a' + (v as u8 - 10)
+    }
+}
+
+impl Case {
+    fn new() -> Case {
+        Case {
+            wire: [0; WIRE_CAP],
+            wire_len: 0,
+            frame_len: 0,
+            payload: [0; PAY_CAP],
+            pay_len: 0,
+            complete_at: [0; WIRE_CAP + 1],
+            present_at: [0; WIRE_CAP + 1],
+        }
+    }
+    fn put(&mut self, b: u8, complete: usize, present: usize) {
+        self.wire[self.wire_len] = b;
+        self.wire_len += 1;
+        self.complete_at[self.wire_len] = complete;
+        self.present_at[self.wire_len] = present;
+    }
+
+    /// chunked body: data chunks as per `shape`, terminator, then `garbage` arbitrary bytes.
+    /// Payload and garbage bytes are symbolic.  Everything on a size line is concrete (a symbolic
+    /// byte inside a line makes the position of the line end symbolic for the symbolic executor,
+    /// and with it every later length): hex-letter case and extension text are enumerated instead.
+    pub fn chunked(shape: &[Ch], garbage: usize, upper: bool) -> Case {
+        let mut c = Case::new();
+        let mut k = 0;
+        while k < shape.len() {
+            let s = shape[k];
+            let done = c.pay_len;
+            let mut z = 0;
+            while z < s.zeros {
+                c.put(b'0', done, done);
+                z += 1;
+            }
+            if s.size >= 16 {
+                c.put(hex_digit(s.size / 16, upper), done, done);
+            }
+            c.put(hex_digit(s.size % 16, upper), done, done);
+            if s.ext == 1 || s.ext == 2 {
+                c.put(b';', done, done);
+                c.put(if upper { b'X' } else { b'x' }, done, done);
+                if s.ext == 2 {
+                    c.put(b'=', done, done);
+                    c.put(b'"', done, done);
+                    c.put(b'1', done, done);
+                    c.put(b'"', done, done);
+                }
+            } else if s.ext == 3 {
+                c.put(b' ', done, done);
+            }
+            if !s.bare_lf {
+                c.put(b'\r', done, done);
+            }
+            c.put(b'\n', done, done);
+            let mut i = 0;
+            while i < s.size {
+                let b: u8 = kani::any();
+                c.payload[c.pay_len] = b;
+                c.pay_len += 1;
+                c.put(b, done, c.pay_len);
+                i += 1;
+            }
+            if !s.bare_lf {
+                c.put(b'\r', done, c.pay_len);
+            }
+            c.put(b'\n', done, c.pay_len);
+            // chunk complete (incl. its line ending)
+            c.complete_at[c.wire_len] = c.pay_len;
+            k += 1;
+        }
+        let p = c.pay_len;
+        c.put(b'0', p, p);
+        c.put(b'\r', p, p);
+        c.put(b'\n', p, p);
+        c.put(b'\r', p, p);
+        c.put(b'\n', p, p);
+        c.frame_len = c.wire_len;
+        let mut g = 0;
+        while g < garbage {
+            let b: u8 = kani::any();
+            c.put(b, p, p);
+            g += 1;
+        }
+        c
+    }
+
+    /// raw body of n symbolic bytes followed by `garbage` symbolic bytes (Content-Length / close framing)
+    pub fn raw(n: usize, garbage: usize) -> Case {
+        let mut c = Case::new();
+        let mut i = 0;
+        while i < n {
+            let b: u8 = kani::any();
+            c.payload[c.pay_len] = b;
+            c.pay_len += 1;
+            let p = c.pay_len;
+            c.put(b, p, p);
+            i += 1;
+        }
+        c.frame_len = c.wire_len;
+        let mut g = 0;
+        while g < garbage {
+            let b: u8 = kani::any();
+            c.put(b, n, n);
+            g += 1;
+        }
+        c
+    }
+
+    pub fn transport(&self, upto: usize, seg: Seg, fault: Fault) -> Script {
+        Script::new(self.wire, upto, seg, fault)
+    }
+}
+
+/// Result of driving a reader with a fixed caller read size.
+pub struct Drive {
+    pub delivered: usize,
+    pub eof: bool,
+    pub err: bool,
+    pub reads_after_terminal: usize,
+    pub bad_byte: bool,
+    pub overrun: bool,
+    pub eof_before_err: bool,
+    pub data_after_eof: bool,
+}
+
+/// Reads with caller buffers of `rd` bytes, at most `max_reads` times; after the first terminal
+/// result (Ok(0) or Err) keeps reading `extra` more times.  Checks the delivered bytes against the
+/// reference payload on the fly (prefix property).
+pub fn drive<R: Read>(r: &mut R, case: &Case, rd: usize, max_reads: usize, extra: usize) -> Drive {
+    let mut d = Drive {
+        delivered: 0,
+        eof: false,
+        err: false,
+        reads_after_terminal: 0,
+        bad_byte: false,
+        overrun: false,
+        eof_before_err: false,
+        data_after_eof: false,
+    };
+    let mut buf = [0u8; 8];
+    let mut i = 0;
+    while i < max_reads {
+        let terminal = d.eof || d.err;
+        if terminal {
+            if d.reads_after_terminal >= extra {
+                break;
+            }
+            d.reads_after_terminal += 1;
+        }
+        match r.read(&mut buf[..rd]) {
+            Ok(0) => {
+                if !d.err {
+                    d.eof_before_err = true;
+                }
+                d.eof = true;
+            }
+            Ok(n) => {
+                if d.eof {
+                    d.data_after_eof = true;
+                }
+                let mut j = 0;
+                while j < n {
+                    if d.delivered + j >= case.pay_len {
+                        d.overrun = true;
+                    } else if buf[j] != case.payload[d.delivered + j] {
+                        d.bad_byte = true;
+                    }
+                    j += 1;
+                }
+                d.delivered += n;
+            }
+            Err(e) => {
+                std::mem::forget(e);
+                d.err = true;
+            }
+        }
+        i += 1;
+    }
+    d
+}
+
+/// Hook H6: stands in for streams::read_timeout under cfg(kani).  The watchdog ping through the
+/// mpsc channel (`timeout.send(())`) makes kani-compiler 0.68 crash (intrinsics.rs:243), and the
+/// Plain/Tls variants that use it are never constructed under Kani (C13 is not applicable).
+pub fn read_no_watchdog<R: Read>(stream: &mut R, buf: &mut [u8], _timeout: &Option<std::sync::mpsc::Sender<()>>) -> io::Result<usize> {
+    stream.read(buf)
+}
+
+// ---------------------------------------------------------------------------------------------
+// Model of core::str::from_utf8 (stub).  std's validator takes a word-at-a-time fast path that
+// depends on `align_offset`, which is nondeterministic under Kani: the scan index becomes symbolic
+// and a 2-byte line no longer unwinds.  This is a plain byte-by-byte validator of the same language
+// (RFC 3629 well-formed UTF-8); the error payload is never inspected by attohttpc.
+
+struct Utf8ErrorM {
+    valid_up_to: usize,
+    error_len: Option<u8>,
+}
+
+fn utf8_err(at: usize) -> std::str::Utf8Error {
+    unsafe {
+        std::mem::transmute::<Utf8ErrorM, std::str::Utf8Error>(Utf8ErrorM {
+            valid_up_to: at,
+            error_len: Some(1),
+        })
+    }
+}
+
+pub fn utf8_valid(v: &[u8]) -> Result<(), usize> {
+    let n = v.len();
+    let mut i = 0;
+    while i < n {
+        let b = v[i];
+        if b < 0x80 {
+            i += 1;
+            continue;
+        }
+        let cont = |k: usize, lo: u8, hi: u8| -> bool { k < n && v[k] >= lo && v[k] <= hi };
+        if b >= 0xC2 && b <= 0xDF {
+            if !cont(i + 1, 0x80, 0xBF) {
+                return Err(i);
+            }
+            i += 2;
+        } else if b >= 0xE0 && b <= 0xEF {
+            let (lo, hi) = if b == 0xE0 {
+                (0xA0, 0xBF)
+            } else if b == 0xED {
+                (0x80, 0x9F)
+            } else {
+                (0x80, 0xBF)
+            };
+            if !cont(i + 1, lo, hi) || !cont(i + 2, 0x80, 0xBF) {
+                return Err(i);
+            }
+            i += 3;
+        } else if b >= 0xF0 && b <= 0xF4 {
+            let (lo, hi) = if b == 0xF0 {
+                (0x90, 0xBF)
+            } else if b == 0xF4 {
+                (0x80, 0x8F)
+            } else {
+                (0x80, 0xBF)
+            };
+            if !cont(i + 1, lo, hi) || !cont(i + 2, 0x80, 0xBF) || !cont(i + 3, 0x80, 0xBF) {
+                return Err(i);
+            }
+            i += 4;
+        } else {
+            return Err(i);
+        }
+    }
+    Ok(())
+}
+
+pub fn from_utf8_model(v: &[u8]) -> Result<&str, std::str::Utf8Error> {
+    match utf8_valid(v) {
+        Ok(()) => Ok(unsafe { std::str::from_utf8_unchecked(v) }),
+        Err(at) => Err(utf8_err(at)),
     }
 }
